@@ -93,6 +93,9 @@ REQUESTS = [
     # a stream inside the items of a stream, all items healthy: completed items wait in the outer queue with started nested producers
     ("stream_in_stream", '{ me { friends @stream(initialCount: 0, label: "o") { id friends @stream(initialCount: 0, label: "i") { id } } } }', {},
      [["u2.friends:agen"], ["u2.friends:aiter"]], None),
+    # a deferred fragment that fails (asynchronously) while a fragment nested in it has already completed early and owns a stream
+    ("failing_defer_owns_streaming_child", '{ me { id ... @defer(label: "A") { nn ... @defer(label: "B") { friends @stream(initialCount: 0, label: "s") { id } } } } }', {"B": "A", "s": "B"},
+     [["u1.nn:err", "u1.friends:agen"], ["u1.nn:err", "u1.friends:aiter"]], None),
     ("deep", '{ me { best { ... @defer(label: "a") { name friends @stream(label: "s") { id ... @defer(label: "c") { nn } } } } } }', {"s": "a"},
      [["u2.name", "u3.nn"], ["u2.friends:agen"]], None),
 ]
